@@ -15,6 +15,8 @@ type t2jOpts struct {
 	Int642String bool
 	ByteAsUint8  bool
 	NoBase64     bool
+	// ValueMapping: fields annotated api.js_conv carry their integer as a decimal string
+	ValueMapping bool
 }
 
 // parseJSONStrict parses with encoding/json (UseNumber) and rejects trailing garbage.
@@ -155,10 +157,25 @@ func cmpJSON(path string, got interface{}, v *TVal, o t2jOpts, unset func(path s
 				want[k] = extra[k]
 			}
 		}
+		jsconv := map[string]bool{}
+		if o.ValueMapping {
+			for _, fv := range v.Fields {
+				if fv.F != nil && fv.F.JSConv {
+					jsconv[fv.F.Key()] = true
+				}
+			}
+		}
 		for _, k := range sortedStrKeys(want) {
 			g, ok := m[k]
 			if !ok {
 				return fmt.Sprintf("%s: member %q missing", path, k)
+			}
+			if jsconv[k] {
+				s, ok := g.(string)
+				if !ok || s != strconv.FormatInt(want[k].I, 10) {
+					return fmt.Sprintf("%s.%s: api.js_conv field: want string %q, got %#v", path, k, strconv.FormatInt(want[k].I, 10), g)
+				}
+				continue
 			}
 			if d := cmpJSON(path+"."+k, g, want[k], o, unset); d != "" {
 				return d
@@ -198,7 +215,11 @@ func cmpJSON(path string, got interface{}, v *TVal, o t2jOpts, unset func(path s
 			case tDOUBLE:
 				ks = strconv.FormatFloat(k.D, 'g', -1, 64)
 			default:
-				ks = strconv.FormatInt(k.I, 10)
+				ki := k.I
+				if k.T.Kind == tBYTE && o.ByteAsUint8 {
+					ki = int64(uint8(ki))
+				}
+				ks = strconv.FormatInt(ki, 10)
 			}
 			g, ok := m[ks]
 			if !ok {
